@@ -7,6 +7,7 @@ import GgrsModel.Proofs.World
 import GgrsModel.Proofs.Lockstep
 import GgrsModel.Proofs.DropWorld
 import GgrsModel.Proofs.Pair
+import GgrsModel.Proofs.Triple
 import GgrsModel.Proofs.HostSpec
 
 namespace Ggrs
@@ -325,5 +326,54 @@ theorem demo_drop_run (t : TLState) : ∃ t', XStar (demoD0, t) (demoD4, t') := 
   have p4 := XStar.step _ _ _ (XStar.step _ _ _ p3 (XStep.localInput demoD3 _ 0 7))
       (XStep.tick _ demoD4 _ 0 (getOk demoD4r).2 e4)
   exact ⟨_, p4⟩
+
+/-! ### a concrete run of three sessions -/
+
+def tri (own : Nat) : P2P :=
+  { numPlayers := 3, maxPrediction := 8, sync := SyncLayer.new 3 8, sparse := false, running := true, fps := 60,
+    handles := [(0, if own = 0 then .localPlayer else .remote 0), (1, if own = 1 then .localPlayer else .remote 1),
+                (2, if own = 2 then .localPlayer else .remote 2)],
+    remotes := [], spectators := [], localConnectStatus := List.replicate 3 {}, desync := none, pred := .repeatLast }
+
+def triTick (s : P2P) (h : Nat) (v : Input) : Except String (P2P × List Request) :=
+  (s.addLocalInput h v).1.advanceRollbackFrame 0 []
+
+def triA1 : P2P := ((getOk (triTick (tri 0) 0 4)).1).userExecute (demoSaves (getOk (triTick (tri 0) 0 4)))
+/-- B and C each receive A's frame 0 (value 4, as A's queue holds it) -/
+def triB1 : P2P := getOk ((tri 1).handleEventCore 0 (.input ⟨0, 4⟩ 0) [0] 0)
+def triC1 : P2P := getOk ((tri 2).handleEventCore 0 (.input ⟨0, 4⟩ 0) [0] 0)
+
+theorem tri_okA : isOk (triTick (tri 0) 0 4) = true := by decide
+theorem tri_okB : isOk ((tri 1).handleEventCore 0 (.input ⟨0, 4⟩ 0) [0] 0) = true := by decide
+theorem tri_okC : isOk ((tri 2).handleEventCore 0 (.input ⟨0, 4⟩ 0) [0] 0) = true := by decide
+
+/-- A submits an input and simulates frame 0; its frame 0 then arrives at B and at C, each time read
+off A's queue: a path of the triple world. -/
+theorem demo_triple_run (tA tB tC : TLState) :
+    ∃ tA', TStar ⟨(tri 0, tA), (tri 1, tB), (tri 2, tC)⟩ ⟨(triA1, tA'), (triB1, tB), (triC1, tC)⟩ := by
+  have eA := ok_of_isOk _ tri_okA
+  have eB := ok_of_isOk _ tri_okB
+  have eC := ok_of_isOk _ tri_okC
+  have p1 : TStar ⟨(tri 0, tA), (tri 1, tB), (tri 2, tC)⟩ ⟨((tri 0).addLocalInput 0 4 |>.1, tA), (tri 1, tB), (tri 2, tC)⟩ :=
+    TStar.step _ _ _ (TStar.refl _) (TStep.aFromB ⟨(tri 0, tA), (tri 1, tB), (tri 2, tC)⟩ _ (TMove.localInput (tri 0) tA _ _ 0 4))
+  have p2 := TStar.step _ _ _ p1 (TStep.aFromB ⟨(((tri 0).addLocalInput 0 4).1, tA), (tri 1, tB), (tri 2, tC)⟩ _
+      (TMove.tick _ (getOk (triTick (tri 0) 0 4)).1 tA _ _ 0 (getOk (triTick (tri 0) 0 4)).2 eA))
+  have p3 := TStar.step _ _ _ p2 (TStep.aFromB ⟨((getOk (triTick (tri 0) 0 4)).1, _), (tri 1, tB), (tri 2, tC)⟩ _
+      (TMove.saves (getOk (triTick (tri 0) 0 4)).1 _ _ _ (demoSaves (getOk (triTick (tri 0) 0 4)))))
+  have p4 := TStar.step _ _ _ p3 (TStep.bFromA ⟨(triA1, _), (tri 1, tB), (tri 2, tC)⟩ _
+      (TMove.arrive (tri 1) triB1 tB (triA1, _) (tri 2, tC) 0 0 4 0 [0] 0
+        (by decide : 0 ∈ triA1.localPlayerHandles) (by decide) (by decide : 0 ∉ (tri 2).localPlayerHandles)
+        (by decide : 0 < triA1.sync.queues.length) (by decide) (by decide)
+        (by decide : ((0 : Nat) : Int) ≤ (rget triA1.sync.queues 0).lastAddedFrame)
+        (by decide : (rget triA1.sync.queues 0).lastAddedFrame < ((0 : Nat) : Int) + INPUT_QUEUE_LENGTH)
+        (by decide : rget (rget triA1.sync.queues 0).inputs (0 % INPUT_QUEUE_LENGTH) = ⟨((0 : Nat) : Int), 4⟩) eB))
+  have p5 := TStar.step _ _ _ p4 (TStep.cFromA ⟨(triA1, _), (triB1, tB), (tri 2, tC)⟩ _
+      (TMove.arrive (tri 2) triC1 tC (triA1, _) (triB1, tB) 0 0 4 0 [0] 0
+        (by decide : 0 ∈ triA1.localPlayerHandles) (by decide) (by decide : 0 ∉ triB1.localPlayerHandles)
+        (by decide : 0 < triA1.sync.queues.length) (by decide) (by decide)
+        (by decide : ((0 : Nat) : Int) ≤ (rget triA1.sync.queues 0).lastAddedFrame)
+        (by decide : (rget triA1.sync.queues 0).lastAddedFrame < ((0 : Nat) : Int) + INPUT_QUEUE_LENGTH)
+        (by decide : rget (rget triA1.sync.queues 0).inputs (0 % INPUT_QUEUE_LENGTH) = ⟨((0 : Nat) : Int), 4⟩) eC))
+  exact ⟨_, p5⟩
 
 end Ggrs
